@@ -250,6 +250,14 @@ def main():
             continue
         if scale:
             args = list(args) + ['--scale', scale]
+        elif tier == 'thorough' and spec.get('thorough_scale'):
+            # keeps the thorough run of the expensive properties near one hour on a quiet 16-core machine
+            args = list(args)
+            if '--scale' in args:
+                i = args.index('--scale')
+                args[i + 1] = str(float(args[i + 1]) * spec['thorough_scale'])
+            else:
+                args += ['--scale', str(spec['thorough_scale'])]
         jobs.append(Job(prop, target, build, list(args), threads, timeout))
     if not jobs:
         log('check.py: no jobs for', prop)
